@@ -467,7 +467,7 @@ make_text_consensus_line(const ESL_MSA *msa, char **ret_consline)
   int       status;
 
   ESL_ALLOC(consline, sizeof(char)     * (msa->alen+1));
-  ESL_ALLOC(v,        sizeof(uint32_t) * (msa->alen));
+  ESL_ALLOC(v,        sizeof(uint32_t) * (msa->alen+1)); /* +1: as in the digital version; alen can be 0 (all columns masked away) */
   for (apos = 0; apos < msa->alen; apos++)
     v[apos] = 0;
 
